@@ -3,6 +3,9 @@
 import json, sys
 
 CHECKS = {
+ "C10": dict(engine="ENUM", design="§4 C10", technique="bounded-exhaustive enumeration of listener sets (count 0..200 x address shape x protocol mix) through the real send_listeners/receive_listeners over a real socket pair",
+   text="(a) every listener count 0..=200 x 6 address shapes x 5 protocol distributions is handed over through the real ScmSocket pair; the received (address, fd) lists must equal the sent ones and each received descriptor must be the very socket sent.",
+   note="Part (a) only so far. Soft-stop / hand-over timing relative to in-flight requests (part b) needs the SIM engine."),
  "C11": dict(engine="ENUM", design="§4 C11", technique="bounded-exhaustive enumeration of message sequences x every cut (pair) of the byte stream x both production read loops on the real Channel over a socket pair with tiny buffers; malformed-prefix lattice; writer flush schedules",
    text="(a) every sequence of 1-3 messages with frame sizes straddling the initial buffer, its doublings and the maximum, the byte stream cut at every position and every pair of positions, read by the worker's loop and by the main process's real extract_messages: all messages delivered once, in order, intact, capacity never above the ceiling, no stall once all bytes are available; (b) writer: every flush schedule, peer receives exactly the accepted frames; (c) every declared length class x payload class followed by valid messages: error, no panic, never permanently wedged (next messages delivered or HUP/ERROR signalled).",
    note="24/96-byte buffers stand in for 1 MB/2 MB (thresholds are relative). The worker-side read loop is a transcription of Server::read_channel_messages_and_notify (private); the main-side loop is the real function. Short writes inside one syscall belong to the SIM part."),
@@ -38,7 +41,6 @@ PLANNED = {
  "C03": "SIM/ENUM check not built yet; planned, see DESIGN.md §4 C03",
  "C08": "SIM engine not built yet; planned, see DESIGN.md §4 C08",
  "C09": "SIM engine (CommandHub) not built yet; planned, see DESIGN.md §4 C09",
- "C10": "ENUM/SIM check not built yet; planned, see DESIGN.md §4 C10",
  "C13": "SIM engine not built yet; planned, see DESIGN.md §4 C13",
  "C14": "SIM engine not built yet; planned, see DESIGN.md §4 C14",
  "C15": "ENUM/SIM check not built yet; planned, see DESIGN.md §4 C15",
